@@ -738,6 +738,8 @@ pub fn g_long_valid(o: &mut Out, types: &[&str]) {
                     writeln!(o.w, "long-valid/{}\t{} {} {}", ty, op, ty, tx(&t)).unwrap();
                 }
                 o.put(&format!("long-valid-fmt/{}", ty), format!("parse_fmt {} {} {} -", ty, cap, tx(&t)));
+                // split right after the exponent marker / its sign: a write that starts with a long run of exponent digits
+                o.put(&format!("long-valid-fmt/{}", ty), format!("parse_fmt {} {} {},{} -", ty, cap, tx(head), tx(&t[head.len()..])));
             }
         }
     }
@@ -784,6 +786,8 @@ pub fn g_swallow_invalid(o: &mut Out, types: &[&str]) {
 pub fn g_targeted_invalid(o: &mut Out) {
     let xs = [
         "nan(1)2", "nan(1)0", "nan()0", "snan(12)3", "nan(1))", "nan((1)", "nan(1", "nan(", "nan(1e2)", "nan(1.0)", "nan(-1)", "nan(+1)", "1.-5", "1.+5", "0.+0", "0.-0", "1.2.3", "1..2", "1e5e5", "1e5.0", "1e", "1e+", "1e-", "e5", ".5", "5.", "5.e3", "-.5", "+-1", "-+1", "--1", "1-", "1+", "1e5-", "1e5+", "1e+-5", "1 ", " 1", "1 2", "1_000", "0x10", "inf ", "infi", "infin", "infini", "infinit", "infinityy", "inff", "in", "i", "n", "na", "nann", "s", "sn", "sna", "snann", "ssnan", "sinf", "-", "+", "", "nan(1)(2)", "nan1", "inf1", "1inf", "1nan", "nan.", "inf.", "infe5", "１２", "1é", "é",
+        // more than one sign in front of a keyword (the sub-parsers have sign arms of their own)
+        "--inf", "+-inf", "-+infinity", "++inf", "--nan", "+-NaN", "-+snan", "--sNaN(123)", "+-nan(1)", "-+-1", "- inf", "-sinf",
     ];
     for s in xs {
         for ty in TYPES {
@@ -1478,6 +1482,10 @@ pub fn g_edge_fill(o: &mut Out, types: &[&str]) {
                 if !tail.is_empty() {
                     o.put(&format!("edge-fill/{}", ty), format!("parse_fmt {} {} {},{} -", ty, cap, tx(&t[..at]), tx(&t[at..])));
                 }
+                // the head (sign, `1e`, `nan(` …) in its own fragment: the next write starts with a long run of digits
+                if !head.is_empty() {
+                    o.put(&format!("edge-fill/{}", ty), format!("parse_fmt {} {} {},{} -", ty, cap, tx(head), tx(&t[head.len()..])));
+                }
                 let bytes: Vec<String> = t.bytes().map(|b| format!("{:02x}", b)).collect();
                 o.put(&format!("edge-fill/{}", ty), format!("parse_fmt {} {} {} -", ty, cap, bytes.join(",")));
                 o.put(&format!("edge-fill-str/{}", ty), format!("parse_str {} {}", ty, tx(&t)));
@@ -1494,8 +1502,8 @@ pub fn zero_run_patterns(_o: &mut Out) -> Vec<Vec<u8>> {
         let f = Fmt { n };
         let p = f.p() as i64;
         for q in [1i64, 2, 19, 20, 37, 38, 39, 40, 41, 42, p - 2, p - 1, p, p + 1, 2 * p, -1, -2, -38, -39, -40, -41, -(p - 2), -(p - 1), -p] {
-            for k in [0i64, 1, q.abs() - 1, q.abs(), q.abs() + 1, p - 3] {
-                if k < 0 || k > p - 2 {
+            for k in [0i64, 1, q.abs() - 1, q.abs(), q.abs() + 1, p - 3, p - 2, p - 1] {
+                if k < 0 || k > p - 1 {
                     continue;
                 }
                 for lead in ["12", "1", "9"] {
